@@ -193,7 +193,7 @@ class Recognizer(IRecognizer):
                                node.start_mark,
                                cjoin('or', map(type_to_desc, recognized_types))
                                )
-            return recognized_types, (message, causes)
+            return recognized_types, (message, [])
 
         return recognized_types, REC_OK
 
@@ -368,7 +368,7 @@ class Recognizer(IRecognizer):
                                node.start_mark,
                                cjoin('or', map(
                                    type_to_desc, recognized_subclasses)))
-            return recognized_subclasses, (message, causes)
+            return recognized_subclasses, (message, [])
 
         # Tags that don't match with what we recognized are an error,
         # because silently ignoring the conflict would get confusing.
